@@ -174,12 +174,31 @@ def class_behaviour(rng, alg, fam, pattern):
                 cmds.append("hsubw %d 1 %d %d %d e" % (c, bufid + i, i, rng.randrange(1, 3 * B)))
                 cmds.append("hsubw %d 0 %d %d %d e" % (c, bufid + i, 9, rng.randrange(1, B)))
                 # abandoned: next use restarts with FIRST/ENTIRE while partial bytes are buffered
+    elif pattern == "drainreuse":   # drain the manager completely by flush, then fill it beyond its lane count without a flush
+        k = rng.choice([1, 2, L, max(1, L - 1)])
+        n = L + 2
+        cmds.append("hmgr %s %s %d" % (alg, fam, n))
+        for c in range(k):
+            cmds.append("hsubw %d 3 %d %d %d e" % (c, bufid, c * 31, rng.choice([1, B, 2 * B + 3])))
+        cmds.append("hdrain %d" % (L + 34))
+        if rng.random() < 0.5:      # twice: the free-lane stack goes through the all-free state again
+            cmds.append("hsubw 0 3 %d 5 %d e" % (bufid, B))
+            cmds.append("hdrain %d" % (L + 34))
+        for c in range(n):
+            cmds.append("hsubw %d 3 %d %d %d s" % (c, bufid + 1, c * 67, (2 + c % 4) * B + c))
+    elif pattern == "threetrip":    # every context needs three trips through the lanes (buffered partial block, whole blocks, padding)
+        k = rng.choice([max(1, L - 1), max(1, L - 1), L, rng.randrange(1, L + 1)])
+        cmds.append("hmgr %s %s %d" % (alg, fam, k + 1))
+        for c in range(k):
+            cmds.append("hsubw %d 1 %d %d %d e" % (c, bufid + c, c * 11, rng.randrange(1, B)))
+        for c in range(k):
+            cmds.append("hsubw %d 2 %d %d %d e" % (c, bufid + c, 7000 + c * 11, rng.choice([2 * B, 3 * B + 1, B + B // 2])))
     cmds.append("hdrain %d" % (L + 34))
     cmds.append("hend")
     return cmds
 
 
-CLASS_PATTERNS = ["equal", "minlane", "flushk", "stream1", "reuse"]
+CLASS_PATTERNS = ["equal", "minlane", "flushk", "stream1", "reuse", "drainreuse", "threetrip"]
 
 
 def job_behaviour(rng, alg, fam):
